@@ -842,6 +842,14 @@ def check_pass(case, cc, dev, desc, fmt, sel, p, requested, reduction, nm, s, te
         cands = ()
         if sel[0] == 'sample' and rows_ok:
             cands = [f for f in range(written[-1], n) if rows_match(p, [f], cols_idx, tok_rows[-1:], red)]
+            # (the assignment found is the earliest one: when the format prints fewer digits than tell neighbouring frames apart,
+            # the rows may as well be the frames one selector stride apart - the situation the known form of the LIS well section
+            # asks for)
+            sstep_ = 1 if sel[1] >= n else n // sel[1]
+            regular = [i * sstep_ for i in range(len(tok_rows))]
+            # (implied X: the X column of a stepped load carries the known late entry error, the other columns decide)
+            s['_rows_fit_selector_stride'] = regular[-1] < n and (rows_match(p, regular, cols_idx, tok_rows, red) or (
+                fmt == 'LIS' and p['implied_x'] and rows_match(p, regular, cols_idx[1:], [r_[1:] for r_ in tok_rows], red)))
         check_well(cc, dev, where, fmt, sel, p, s, written, tok_rows if rows_ok else None, cands)
     # ---- LASRead (it refuses an index that the chosen format does not resolve: C10's domain is an index above the print resolution)
     xs = [lasfmt.parse_number(r[0]) for r in tok_rows if r]
@@ -981,7 +989,9 @@ def well_devs(dev, where, fmt, sel, p, s, exp_rows, tok_rows):
         pa, pb = printed_x(tok_rows, 0), printed_x(tok_rows, -1)
         # (the known form describes rows that ARE the selector's stride apart; rows written at another stride are another matter)
         strides = {b - a for a, b in zip(exp_rows, exp_rows[1:])}
-        if within(tok, wrong, 4 * EPS * abs(wrong)) and strides <= {sstep}:
+        # (... the frames of the rows cannot always be told from the printed rows - implied X with its known late entry error,
+        # fewer digits printed than tell neighbours apart: the caller says whether the rows fit the selector's stride)
+        if within(tok, wrong, 4 * EPS * abs(wrong)) and (strides <= {sstep} or s.get('_rows_fit_selector_stride')):
             sig = SIG_LIS_WHOLE
         elif p['implied_x'] and pa is not None and pb is not None:
             w2 = (pb.value - pa.value) * fac / (len(exp_rows) - 1)
